@@ -186,6 +186,7 @@ class Face(ElementBase):
         indexes = list(range(4))
         indexes.sort(key=lambda i: f.norm(position - self.points[i].position))
 
-        self.shift(indexes[0])
+        # shift() rotates towards higher indexes: bring point indexes[0] to the front
+        self.shift(-indexes[0])
 
         return self
